@@ -404,6 +404,8 @@ pub fn run_check(id: &str, tier: &str, seed: u64) -> i32 {
         "C15" | "C16" => run_prov_check(id, tier, seed),
         "C20" => run_block_check(id, tier, seed),
         "C17" => run_driver_check(id, tier, seed),
+        "C19" => run_c19(id, tier, seed),
+        "C06" => run_c06(id, tier, seed),
         "C02" => fe(&[Crashy, Mixed, Reject], &["R02"], n(30_000, 1_500_000), ft),
         "C05" => fe(&[Crashy, Mixed], &["R05"], n(30_000, 1_500_000), ft),
         "C08" => fe(&[Crashy, Mixed], &["R08a", "R08c"], n(30_000, 1_500_000), ft),
@@ -411,7 +413,6 @@ pub fn run_check(id: &str, tier: &str, seed: u64) -> i32 {
         "C01" => sim(&[Hashes, Mixed, Crashy], &["R01a", "R01b", "R01c"], n(24_000, 1_000_000), rt, "exploration"),
         "C03" => sim(&[Amounts, Mixed, Reject], &["R03a", "R03b", "R03c"], n(24_000, 1_000_000), rt, "exploration"),
         "C04" => sim(&[Expiry, Mixed], &["R04a"], n(24_000, 1_000_000), rt, "exploration"),
-        "C06" => sim(&[Hostile, Mixed, Crashy, Reject], &["R06a", "R06b", "R06c", "R06d"], n(24_000, 1_000_000), rt, "exploration"),
         "C07" => sim(&[Reject, Mixed], &["R07a", "R07b", "R07c"], n(24_000, 1_000_000), rt, "exploration"),
         "C10" => sim(&[Classify, Hashes], &["R10"], n(24_000, 1_000_000), rt, "exploration"),
         "C11" => sim(&[Timeout, Mixed], &["R11a", "R11b", "R11c"], n(24_000, 1_000_000), rt, "exploration"),
@@ -782,4 +783,97 @@ pub fn run_driver_check(id: &str, tier: &str, seed: u64) -> i32 {
         },
         t0,
     )
+}
+
+pub fn run_c19(id: &str, tier: &str, seed: u64) -> i32 {
+    let t0 = Instant::now();
+    let bin = match std::env::var("VMON_PLUGIN_BIN") {
+        Ok(b) => b,
+        Err(_) => {
+            println!("INCONCLUSIVE property={id} plugin binary not provided");
+            return 2;
+        }
+    };
+    let (r, n, d) = crate::e2e_checks::c19_e2e(&bin, seed, tier != "thorough");
+    let samples = r.coverage["samples"].as_array().cloned().unwrap_or_default();
+    // timing slack exceeded is inconclusive for that probe only; the check stays decided by the rest
+    let soft: Vec<String> = r.inconclusive.iter().filter(|x| x.contains("mpp probe") || x.contains("partial set not answered")).cloned().collect();
+    let hard: Vec<String> = r.inconclusive.iter().filter(|x| !soft.contains(x)).cloned().collect();
+    conclude_simple(
+        Simple {
+            id,
+            tier,
+            seed,
+            level: "exploration",
+            engine: "e2e",
+            evaluations: n,
+            distinct: d,
+            evals: r.evals.clone(),
+            classes: r.coverage["outcome_classes"].as_object().map(|m| m.iter().map(|(k, v)| (k.clone(), v.as_u64().unwrap_or(0))).collect()).unwrap_or_default(),
+            violations: r.violations,
+            samples,
+            rules: vec!["R19a", "R19b-policy", "R19b-pay"],
+            rule_text: "option assignments for the real binary: every pair of options over {-1,0,1,default,65535,65536,2^32-1,2^32,i64::MAX} (mpp also 2,3), deltas equal/swapped/adjacent, both flags (quick: seeded subsample balanced between accepted and refused); reference: refuse iff out of range or policy delta <= safety delta; accepted assignments are probed: 201a bytes, pay retry_for/maxdelay/maxfee/label, self-route-hint flag, mpp timing; a case is one assignment; distinct = distinct assignments",
+            extra: json!({"timing_probes_inconclusive": soft, "assignments": n}),
+            assumptions: vec!["lightningd passes integer options as JSON numbers and flags as booleans in init.params.options".into(), "refusal = process exits non-zero without acknowledging init".into(), "wall clock is used one-sidedly: failing before the mpp timeout is a violation, answering late is inconclusive".into()],
+            inconclusive: hard,
+            exhaustive: Some(tier == "thorough"),
+        },
+        t0,
+    )
+}
+
+pub fn run_c06(id: &str, tier: &str, seed: u64) -> i32 {
+    let t0 = Instant::now();
+    let thorough = tier == "thorough";
+    use Profile::*;
+    let rules = ["R06a", "R06b", "R06c", "R06d"];
+    let agg = campaign(id, &rules, seed, thorough, &[Hostile, Mixed, Crashy, Reject], if thorough { 1_000_000 } else { 24_000 }, if thorough { 1200 } else { 60 });
+    let mut extra = json!({});
+    let mut e2e_viol: Vec<(String, u64, String)> = vec![];
+    let mut inconclusive: Vec<String> = vec![];
+    match std::env::var("VMON_PLUGIN_BIN") {
+        Ok(bin) => {
+            let r = crate::e2e_checks::c06_e2e(&bin, seed, if thorough { 3000 } else { 120 }, if thorough { 60 } else { 0 });
+            extra["e2e"] = r.coverage;
+            extra["e2e_rule_evaluations"] = json!(r.evals);
+            for (k, (n, w)) in r.violations {
+                e2e_viol.push((k, n, w));
+            }
+            let soft: Vec<String> = r.inconclusive.iter().filter(|x| x.contains("valgrind")).cloned().collect();
+            extra["e2e_inconclusive_valgrind"] = json!(soft.len());
+            inconclusive.extend(r.inconclusive.into_iter().filter(|x| !x.contains("valgrind")));
+        }
+        Err(_) => inconclusive.push("plugin binary not provided".into()),
+    }
+    // E2E violations are reported through the same path as SIM ones
+    let known = load_known();
+    let mut exit_e2e = 0;
+    let mut n_e2e = 0;
+    for (sig, n, w) in &e2e_viol {
+        if let Some((p, k, what)) = known.matches(id, sig) {
+            println!("KNOWN-FINDING: property={p} {k} -- {what}");
+            continue;
+        }
+        n_e2e += n;
+        let dir = format!("{}/replays", out_dir());
+        let _ = std::fs::create_dir_all(&dir);
+        let path = format!("{dir}/{id}-e2e-{}.json", sig.replace('|', "_").replace('/', "_").chars().take(80).collect::<String>());
+        let _ = std::fs::write(&path, serde_json::to_string_pretty(&json!({"property": id, "engine": "e2e", "signature": sig, "witness": w, "count": n, "seed": seed})).unwrap());
+        println!("VIOLATION property={id} replay={path}");
+        eprintln!("  {sig}: {}", w.chars().take(600).collect::<String>());
+        exit_e2e = 1;
+    }
+    extra["e2e_violations"] = json!(n_e2e);
+    let mut agg = agg;
+    for i in inconclusive {
+        agg.inconclusive.insert(format!("harness panic: e2e {i}"), 1);
+    }
+    let rt = "SIM: random seeded runs with hostile payload/metadata bytes, numeric extremes, up to 8 HTLCs per hash in every lifecycle phase, write faults (read faults in thorough); E2E: the same kinds of hostile requests against the real binary; a case is one run/session; distinct_nontrivial = distinct abstract traces among SIM runs in which the target rules were evaluated";
+    let e = conclude(id, tier, seed, "exploration", &agg, &rules, rt, sim_assumptions(), t0, extra, None);
+    if exit_e2e == 1 {
+        1
+    } else {
+        e
+    }
 }
